@@ -43,21 +43,29 @@ def pad0_ref(frame, c, h, w, p):
     return out
 
 
-def run_impl(fn, frame, c, h, w, peaks, fill, dtype=np.float32):
-    """returns (status, windows) ; status 'ok' | 'raise:<type>' | 'guard' (write outside the buffer)"""
-    big, view = guarded_buf(len(peaks), h, w, fill, dtype)
-    pk = np.asarray(peaks, dtype=np.int64).reshape(-1, 2).copy()
+def run_impl(fn, frame, c, h, w, peaks, fill, dtype=np.float32, spare=0, fmt=None):
+    """returns (status, windows) ; status 'ok' | 'raise:<type>' | 'guard' (write outside the buffer).  spare: slots of the buffer stack beyond
+    the number of peaks ("n doesn't have to match the number of peaks"); fmt: deliver the frame as that sparse array format"""
+    big, view = guarded_buf(len(peaks) + spare, h, w, fill, dtype)
+    # the peak list is a view into a longer array: a read beyond its end finds the peak (1, 1) instead of arbitrary memory
+    pkbig = np.full((len(peaks) + 4, 2), 1, dtype=np.int64)
+    pk = pkbig[:len(peaks)]
+    pk[...] = np.asarray(peaks, dtype=np.int64).reshape(-1, 2)
     pk0, fr0 = pk.copy(), frame.copy()
+    arg = frame
+    if fmt is not None:
+        import sparseconverter
+        arg = sparseconverter.for_backend(np.ascontiguousarray(frame), fmt)
     try:
-        fn(pk, frame, c, view)
+        fn(pk, arg, c, view)
     except Exception as e:  # noqa
-        return 'raise:' + type(e).__name__, None
+        return 'raise:%s: %s' % (type(e).__name__, str(e)[:120]), None
     if not np.array_equal(pk, pk0):
         return 'the peak list passed in was modified in place (%s -> %s)' % (pk0[:2].tolist(), pk[:2].tolist()), None
     if not np.array_equal(frame, fr0, equal_nan=True):
         return 'the frame passed in was modified in place', None
     chk = big.copy()
-    chk[1:len(peaks) + 1, 3:3 + h, 3:3 + w] = GUARDV
+    chk[1:len(peaks) + spare + 1, 3:3 + h, 3:3 + w] = GUARDV
     if not (chk == np.asarray(GUARDV).astype(chk.dtype)).all():
         return 'guard', view.copy()
     return 'ok', view.copy()
@@ -66,14 +74,18 @@ def run_impl(fn, frame, c, h, w, peaks, fill, dtype=np.float32):
 BACKENDS = [('per_pixel', blc.crop_disks_from_frame), ('slicing', blc.crop_disks_from_frame_slicing)]
 
 
-def oracle_case(frame_vals, c, h, w, peaks, fill, dtype=np.float32):
-    """the property statement on the implementation; returns None or a failure description"""
+SPARSE_FORMATS = ['sparse.COO', 'sparse.GCXS', 'scipy.sparse.csr_matrix', 'scipy.sparse.csc_matrix']
+
+
+def oracle_case(frame_vals, c, h, w, peaks, fill, dtype=np.float32, spare=0, fmt=None):
+    """the property statement on the implementation; returns None or a failure description.  fmt: the frame is handed to the slicing
+    back-end as a sparse array of that format (the per-pixel back-end gets the dense frame)"""
     frame = guarded_frame(frame_vals)
     res = {}
     for name, fn in BACKENDS:
-        st, win = run_impl(fn, frame, c, h, w, peaks, fill, dtype)
+        st, win = run_impl(fn, frame, c, h, w, peaks, fill, dtype, spare, fmt if name == 'slicing' else None)
         if st != 'ok':
-            return {'backend': name, 'problem': st, 'peak': [int(v) for v in peaks[0]]}
+            return {'backend': name + (' (%s frame)' % fmt if fmt and name == 'slicing' else ''), 'problem': st, 'peak': [int(v) for v in peaks[0]]}
         res[name] = win
         for i, p in enumerate(peaks):
             exp = pad0_ref(frame_vals, c, h, w, p)
@@ -81,21 +93,25 @@ def oracle_case(frame_vals, c, h, w, peaks, fill, dtype=np.float32):
                 return {'backend': name, 'problem': 'window differs from zero-padded window',
                         'peak': [int(p[0]), int(p[1])], 'expected': exp.tolist(), 'got': win[i].tolist()}
     if not np.array_equal(res['per_pixel'], res['slicing'], equal_nan=True):
+        n = len(peaks)
+        if spare and np.array_equal(res['per_pixel'][:n], res['slicing'][:n], equal_nan=True):
+            return {'backend': 'both', 'problem': 'back-ends disagree on the %d slot(s) of the buffer stack beyond the %d peak(s): per-pixel %s, slicing %s (pre-fill %s)'
+                    % (spare, n, res['per_pixel'][n:].ravel()[:6].tolist(), res['slicing'][n:].ravel()[:6].tolist(), fill), 'peak': [int(v) for v in peaks[0]]}
         return {'backend': 'both', 'problem': 'back-ends disagree'}
     return None
 
 
-def make_replay(frame_vals, c, h, w, peak, fill, dtype, fail):
+def make_replay(frame_vals, c, h, w, peak, fill, dtype, fail, spare=0, fmt=None):
     return {'kind': 'input', 'call': 'crop_disks_from_frame / crop_disks_from_frame_slicing',
             'args': {'frame': np.asarray(frame_vals).tolist(), 'crop_size': int(c), 'buf_shape': [int(h), int(w)],
-                     'peak': [int(peak[0]), int(peak[1])], 'prefill': float(fill), 'dtype': str(np.dtype(dtype))},
+                     'peak': [int(peak[0]), int(peak[1])], 'prefill': float(fill), 'dtype': str(np.dtype(dtype)), 'spare_slots': int(spare), 'frame_format': fmt},
             'failure': fail}
 
 
 def replay(body):
     a = body['args']
     fv = np.array(a['frame'], dtype=a['dtype'])
-    fail = oracle_case(fv, a['crop_size'], a['buf_shape'][0], a['buf_shape'][1], [a['peak']], a['prefill'], np.dtype(a['dtype']))
+    fail = oracle_case(fv, a['crop_size'], a['buf_shape'][0], a['buf_shape'][1], [a['peak']], a['prefill'], np.dtype(a['dtype']), a.get('spare_slots', 0), a.get('frame_format'))
     print(json.dumps({'replayed': a, 'failure_now': fail}, indent=1, default=str))
     if fail:
         print('VIOLATION property=C13 replay=(given)')
@@ -165,6 +181,24 @@ def run(ctx):
         if fail:
             ctx.violation('input', 'cropping a %s frame into a %s buffer changes values (%s): %s' % (np.dtype(dt).name, np.dtype(dt).name, fail.get('backend'), fail.get('problem')),
                           make_replay(vals, c, 2 * c, 2 * c, p, 0, dt, fail))
+            break
+    # ---------------- (S) buffer stacks with more slots than peaks; sparse frames through the slicing back-end ----------------
+    for k in range(ctx.n(120, 1200)):
+        fy, fx = int(rng.integers(1, 10)), int(rng.integers(1, 10))
+        c = int(rng.integers(1, 4))
+        dt = [np.float32, np.float32, np.int32, np.float64][k % 4]
+        vals = (rng.integers(0, 60, size=(fy, fx)) * (rng.random(size=(fy, fx)) < (0.3 if k % 3 == 0 else 1.0))).astype(dt)
+        p = (int(rng.integers(-c - 1, fy + c + 2)), int(rng.integers(-c - 1, fx + c + 2)))
+        spare = int(rng.integers(0, 3))
+        fmt = SPARSE_FORMATS[(k // 2) % 4] if k % 2 == 0 else None
+        fill = float(rng.choice([0, SENT]))
+        outdt = np.float64 if np.dtype(dt).itemsize == 8 else np.float32
+        fail = oracle_case(vals, c, 2 * c, 2 * c, [p], fill, outdt, spare, fmt)
+        ctx.count(2, key=('spare/sparse', fy, fx, c, p, spare, fmt, fill, str(np.dtype(dt))))
+        ctx.hist('frame format for the slicing back-end', fmt or 'numpy')
+        ctx.hist('spare buffer slots', spare)
+        if fail:
+            ctx.violation('input', 'cropping differs from the zero-padded window (%s): %s' % (fail.get('backend'), fail.get('problem')), make_replay(vals, c, 2 * c, 2 * c, p, fill, outdt, fail, spare, fmt))
             break
     # ---------------- (K) correspondence model <-> implementation ----------------
     ncase = ctx.n(300, 3000)
@@ -248,4 +282,4 @@ def run(ctx):
                     'exhaustive box on the implementation against an independent zero-padding reference.',
         rule='(K) random frames 1..11 x 1..11 of 7 dtypes, c 1..4, buffer (2c,2c) or arbitrary, peaks inside / on borders / anywhere in '
              '[-2c-1, shape+2c+1], pre-filled buffers; distinct by (shape, c, buffer, peak, prefill). (S) exhaustive shapes<=7x7 '
-             '(quick: a sub-box), c 1..4, every peak of the property\'s range, pre-fill 0 and 7777, both back-ends.')
+             '(quick: a sub-box), c 1..4, every peak of the property\'s range, pre-fill 0 and 7777, both back-ends; buffer stacks with 0..2 slots more than peaks; frames handed to the slicing back-end as sparse.COO / sparse.GCXS / scipy.sparse csr / csc arrays.')
